@@ -1699,7 +1699,7 @@ def rand_grammar(rnd, gid, tier):
     P = "verif_common::oracles::"
     nrules = rnd.randint(2, 4)
     names = ["S"] + ["R%d" % i for i in range(1, nrules)]
-    fixed = ["T", "C", "D", "O", "A", "B", "TS", "L", "L"]   # always available helper rules (defined below)
+    fixed = ["T", "C", "D", "O", "A", "B", "TS", "L", "L", "X"]   # always available helper rules (defined below)
     fields = ["x", "y", "z"]
     lits = ["a", "b", "ab", "c", "ba"]
 
@@ -1800,20 +1800,62 @@ def rand_grammar(rnd, gid, tier):
     # a @string rule with a random field-less body that starts by consuming (optional tails, lookaheads, choices inside)
     ts_body = Seq(consuming_atom(len(names), False), expr(len(names), 2, False))
     ts_checked = rnd.random() < 0.25          # (the library check takes a plain String: not with @position)
+    c_chk = []
+    if rnd.random() < 0.25:
+        user_rs.append("pub fn cchk_c(c: char) -> bool { logged(\"cchk_c\", &c, c != 'b') }")
+        pth = "crate::cases::g_%s::user::cchk_c" % gid
+        c_chk = [{"o": "char_not", "c": "b", "path": pth, "name": pth}]
     rules += [
         Rule("TS", ts_body, string=True, no_skip_ws=rnd.random() < 0.5, position=(not ts_checked and rnd.random() < 0.3),
              memoize=rnd.random() < 0.3, checks=([even] if ts_checked else [])),
         Rule("L", l_body, leftrec=True, no_skip_ws=l_ws, position=l_pos, checks=l_chk),
         Rule("T", Clo(Choice(Lit("a"), Lit("b")), plus=True), string=True, no_skip_ws=rnd.random() < 0.7, position=rnd.random() < 0.3),
-        CharRule("C", [("lit", "c"), ("range", "a", "b")]),
+        CharRule("C", [("lit", "c"), ("range", "a", "b")], checks=c_chk),
         ExternRule("D", {"o": "digits", "path": P + "ext_digits", "nullable": False}),
+        ExternRule("X", {"o": "two", "path": P + "ext_two", "nullable": False}),
         Rule("O", Choice(Call("A", "@"), Call("B", "@", boxed=rnd.random() < 0.3)), no_skip_ws=rnd.random() < 0.5),
         Rule("A", Lit("a"), position=rnd.random() < 0.3), Rule("B", Seq(Lit("b"), Opt(Lit("b"))), no_skip_ws=True),
     ]
     rules += extra_l
+    if rnd.random() < 0.15:
+        # a grammar-defined Whitespace rule replaces the built-in skipper (digits are skipped too)
+        rules.append(Rule("Whitespace", Clo(Choice(Lit(" "), Lit("1"))), no_skip_ws=True))
     g = Grammar(gid, rules, root="S", maxlen=2 if tier == "quick" else 3, meta={"shape": "random", "user_rs": "\n".join(user_rs)})
     g.alpha = ["a", "b", "c", " ", "1"] if any(r.kind == "rule" and not r.no_skip_ws for r in rules) else ["a", "b", "c", "1"]
     return g
+
+
+def substitute(g, m):
+    """the same grammar over other characters: every occurrence of the keys of m in case-sensitive literals,
+    ranges, @char classes, the alphabet and the extra inputs is replaced (case-insensitive literals stay ASCII)"""
+    import peg
+    tr = lambda x: "".join(m.get(c, c) for c in x) if isinstance(x, str) else x  # noqa: E731
+    for e in peg.all_exprs(g):
+        if isinstance(e, Lit) and not e.ci and e.s is not None:
+            e.s = tr(e.s)
+        elif isinstance(e, Range):
+            e.lo, e.hi = tr(e.lo), tr(e.hi)
+            if isinstance(e.lo, str) and isinstance(e.hi, str) and e.lo > e.hi:
+                e.lo, e.hi = e.hi, e.lo
+    for r in g.rules:
+        if r.kind == "char":
+            parts = []
+            for pt in r.parts:
+                if pt[0] == "lit":
+                    parts.append(("lit", tr(pt[1])))
+                elif pt[0] == "range":
+                    lo, hi = tr(pt[1]), tr(pt[2])
+                    parts.append(("range", min(lo, hi), max(lo, hi)))
+                else:
+                    parts.append(pt)
+            r.parts = parts
+    g.alpha = list(dict.fromkeys(tr(c) for c in g.alpha))
+    g.extra = [[tr(c) for c in x] for x in g.extra]
+    g.real_extra = [[tr(c) for c in x] for x in g.real_extra]
+    return g
+
+
+UNI_MAPS = [{"c": "\u00e9"}, {"b": "\u9053", "c": "\U0001F600"}, {"a": "\u00e9", " ": " "}, {"c": "\u00a0"}, {"b": "\u0130"}]
 
 
 def fam_rand(tier, seed):
@@ -1833,6 +1875,26 @@ def fam_rand(tier, seed):
         if len(out) % 3 == 0:
             add_long(g, rnd)
         out.append(g)
+    return out
+
+
+def fam_randuni(tier, seed):
+    """the random grammars over multi-byte characters (C04, C09: byte offsets against character boundaries)"""
+    import copy
+    rnd = random.Random(seed * 7919 + 78)
+    out = []
+    for g in fam_rand(tier, seed + 1000)[: (40 if tier == "quick" else 250)]:
+        h = copy.deepcopy(g)
+        h.id = "ru_%04d" % len(out)
+        m = rnd.choice(UNI_MAPS)
+        substitute(h, m)
+        for r in h.rules:
+            for c in getattr(r, "checks", []):
+                c["path"] = c["path"].replace("g_" + g.id, "g_" + h.id)
+                c["name"] = c["name"].replace("g_" + g.id, "g_" + h.id)
+        h.meta = dict(g.meta, shape=g.meta["shape"] + "/uni")
+        if well_formed(h):
+            out.append(h)
     return out
 
 
@@ -1860,4 +1922,5 @@ def fam_randmemo(tier, seed):
 
 
 FAMILIES["rand"] = fam_rand
+FAMILIES["randuni"] = fam_randuni
 FAMILIES["randmemo"] = fam_randmemo
